@@ -29,6 +29,7 @@ CapsOf(p) == CASE p = "p1" -> {<<"f", "a">>}
                [] p = "p9" -> {<<"f", "a">>}
                [] p = "p10" -> {<<"f", "a">>}
                [] p = "p11" -> {<<"f", "$:T">>}
+               [] p \in {"p14", "p15"} -> {<<"f", "a">>}
                [] p = "p12" -> {<<"h1", "a">>}
                [] p = "p13" -> {<<"h2", "a">>}
                [] p = "bad" -> {<<"f", "zzz">>}
